@@ -493,12 +493,19 @@ theorem kwargs_order_independent (d : Deriv) (ignore : List String) (extra args 
 theorem boolKey_inj {a b : Bool} (h : boolKey a = boolKey b) : a = b := by
   cases a <;> cases b <;> simp [boolKey] at h ⊢
 
+theorem fracText_nat (n : Nat) : fracText (n : Int) 0 = Nat.repr n := by
+  simp [fracText, Int.repr]
+
 theorem natObj_key_inj (d : Deriv) (hd : d.numRepr = true) {a b : Nat}
     (h : hashMutableG d (natObj a) = hashMutableG d (natObj b)) : a = b := by
-  simp only [natObj, hashMutableG, numKey, hd, if_true] at h
+  simp only [natObj, hashMutableG, numKey, hd, if_true, numText, fracText_nat] at h
   have h2 : strKey (Nat.repr a) = strKey (Nat.repr b) := by
     injection h with h; injection h with _ h; injection h
   exact Nat.repr_inj.mp (strKey_inj h2)
+
+theorem boolObj_key_inj (d : Deriv) (hd : d.numRepr = true) {a b : Bool}
+    (h : hashMutableG d (boolObj a) = hashMutableG d (boolObj b)) : a = b := by
+  cases a <;> cases b <;> first | rfl | (exfalso; revert h; simp only [boolObj, hashMutableG, numKey, hd, if_true]; decide)
 
 theorem natList_key_inj (d : Deriv) (hd : d.numRepr = true) {l l' : List Nat}
     (h : hashMutableG d (.tuple (l.map natObj)) = hashMutableG d (.tuple (l'.map natObj))) : l = l' := by
@@ -636,9 +643,7 @@ theorem bc_key_faithful_gen (d : Deriv) (h1 : d.withClass = true) (h2 : d.numRep
     exact natObj_key_inj d h2 (some_map_inj this)
   · have := hL "upper" (by decide)
     rw [bcAttrs_lookup_upper, bcAttrs_lookup_upper] at this
-    have := some_map_inj this
-    simp only [boolObj, hashMutableG] at this
-    exact boolKey_inj this
+    exact boolObj_key_inj d h2 (some_map_inj this)
   · have := hL "_shape_tensor" (by decide)
     rw [bcAttrs_lookup_st, bcAttrs_lookup_st] at this
     exact natList_key_inj d h2 (some_map_inj this)
@@ -653,14 +658,10 @@ theorem bc_key_faithful_gen (d : Deriv) (h1 : d.withClass = true) (h2 : d.numRep
       exact arrObj_key_inj d h3 hsm.1 hsm.2.1 (some_map_inj this)
     · have := hL "homogeneous" (by decide)
       rw [bcAttrs_lookup_hom a hv, bcAttrs_lookup_hom b hvb] at this
-      have := some_map_inj this
-      simp only [boolObj, hashMutableG] at this
-      exact boolKey_inj this
+      exact boolObj_key_inj d h2 (some_map_inj this)
     · have := hL "value_is_linked" (by decide)
       rw [bcAttrs_lookup_linked a hv, bcAttrs_lookup_linked b hvb] at this
-      have := some_map_inj this
-      simp only [boolObj, hashMutableG] at this
-      exact boolKey_inj this
+      exact boolObj_key_inj d h2 (some_map_inj this)
   · intro hv
     have hvb : b.cls.hasConst = true := hcls ▸ hv
     have := hL "const" (by decide)
@@ -670,9 +671,7 @@ theorem bc_key_faithful_gen (d : Deriv) (h1 : d.withClass = true) (h2 : d.numRep
     have hvb : b.cls = .PeriodicBC := hcls ▸ hv
     have := hL "flip_sign" (by decide)
     rw [bcAttrs_lookup_flip a hv, bcAttrs_lookup_flip b hvb] at this
-    have := some_map_inj this
-    simp only [boolObj, hashMutableG] at this
-    exact boolKey_inj this
+    exact boolObj_key_inj d h2 (some_map_inj this)
   · have := hL "grid" (by decide)
     rw [bcAttrs_lookup_grid, bcAttrs_lookup_grid] at this
     exact some_map_inj this
@@ -725,8 +724,7 @@ theorem grid_key_faithful_builtin (d : Deriv) (hd : d.gridRepr = false) (a b : G
     exact_mod_cast h
   · refine map_inj_of_inj ?_ h4
     intro x y hxy
-    simp only [Function.comp, boolObj, builtinKey] at hxy
-    exact boolKey_inj hxy
+    cases x <;> cases y <;> first | rfl | (exfalso; revert hxy; simp only [Function.comp, boolObj, builtinKey, pyHashVal]; decide)
   · have hf : ∀ (s : List (FloatSpec × FloatSpec)),
         s.map (builtinKey d ∘ fun b => PyObj.tuple [floatObj b.1, floatObj b.2]) =
         (s.map boundsHash).map (fun p : Int × Int => Key.tup [Key.leaf (Leaf.int p.1), Key.leaf (Leaf.int p.2)]) := by
@@ -742,13 +740,15 @@ theorem grid_key_faithful_builtin (d : Deriv) (hd : d.gridRepr = false) (a b : G
     injection h2 with h2; injection h2 with h2
     exact Prod.ext h1 h2
 
+/-- the text of the exact values (`str(Fraction(x))`) of the two bounds of an axis -/
+def boundsText (p : FloatSpec × FloatSpec) : String × String := (fracText p.1.m p.1.e, fracText p.2.m p.2.e)
+
 /-- `GridBase._cache_hash` through `hash_mutable`: the key determines class, shape, periodicity
-and the `repr` of every bound. -/
+and the exact value (as the text of its fraction) of every bound. -/
 theorem grid_key_faithful_mutable (d : Deriv) (hd : d.gridRepr = true) (h2 : d.numRepr = true) (a b : GridSpec)
     (h : hashMutableG d (gridGraph a) = hashMutableG d (gridGraph b)) :
     a.cls = b.cls ∧ a.shape = b.shape ∧ a.periodic = b.periodic ∧
-      a.bounds.map (fun p => ((p.1.cls, p.1.repr), (p.2.cls, p.2.repr))) =
-        b.bounds.map (fun p => ((p.1.cls, p.1.repr), (p.2.cls, p.2.repr))) := by
+      a.bounds.map boundsText = b.bounds.map boundsText := by
   simp only [gridGraph, hashMutableG, hd, if_true, hashListG, hashListG_eq, List.map_map] at h
   injection h with h
   injection h with h1 h
@@ -760,25 +760,22 @@ theorem grid_key_faithful_mutable (d : Deriv) (hd : d.gridRepr = true) (h2 : d.n
   injection h4 with h4
   refine ⟨strKey_inj h1, ?_, ?_, ?_⟩
   · exact map_inj_of_inj (fun x y hxy => natObj_key_inj d h2 hxy) hs
-  · refine map_inj_of_inj ?_ h4
-    intro x y hxy
-    simp only [Function.comp, boolObj, hashMutableG] at hxy
-    exact boolKey_inj hxy
+  · exact map_inj_of_inj (fun x y hxy => boolObj_key_inj d h2 hxy) h4
   · have hf : ∀ (s : List (FloatSpec × FloatSpec)),
         s.map (hashMutableG d ∘ fun b => PyObj.tuple [floatObj b.1, floatObj b.2]) =
-        (s.map (fun p => ((p.1.cls, p.1.repr), (p.2.cls, p.2.repr)))).map (fun p : (String × String) × (String × String) =>
-          Key.tup [Key.tup [strKey p.1.1, strKey p.1.2], Key.tup [strKey p.2.1, strKey p.2.2]]) := by
+        (s.map boundsText).map (fun p : String × String =>
+          Key.tup [Key.tup [strKey "number", strKey p.1], Key.tup [strKey "number", strKey p.2]]) := by
       intro s
-      simp [List.map_map, Function.comp_def, floatObj, hashMutableG, hashListG, numKey, h2]
+      simp [List.map_map, Function.comp_def, floatObj, hashMutableG, hashListG, numKey, h2, boundsText, numText]
     rw [hf, hf] at h3
     refine map_inj_of_inj ?_ h3
     intro x y hxy
     injection hxy with h
     injection h with e1 h
     injection h with e2 _
-    injection e1 with e1; injection e1 with c1 e1; injection e1 with e1 _
-    injection e2 with e2; injection e2 with c2 e2; injection e2 with e2 _
-    exact Prod.ext (Prod.ext (strKey_inj c1) (strKey_inj e1)) (Prod.ext (strKey_inj c2) (strKey_inj e2))
+    injection e1 with e1; injection e1 with _ e1; injection e1 with e1 _
+    injection e2 with e2; injection e2 with _ e2; injection e2 with e2 _
+    exact Prod.ext (strKey_inj e1) (strKey_inj e2)
 
 
 /-! ### BoundaryPair, BoundariesList, requests -/
@@ -1003,6 +1000,19 @@ theorem remaining_coincidences :
     hashMutable (.list [.bool true]) = hashMutable (.tuple [.bool true]) ∧
     hashMutable (.str "abc") = hashMutable (.bytes [97, 98, 99]) := by
   decide +kernel
+
+/-- equal numbers of different classes share their key (`1`, `1.0`, `True`, `np.float32(1)`,
+`1+0j` ...): only the exact value is hashed -/
+theorem num_key_class_independent (c r c' r' : String) (v : NumVal) :
+    hashMutable (.num c r v) = hashMutable (.num c' r' v) := rfl
+
+/-- ... and different small integers have different keys -/
+theorem int_key_inj {a b : Nat}
+    (h : hashMutable (.num "int" (Nat.repr a) (.fin a 0)) = hashMutable (.num "float" "x" (.fin b 0))) : a = b := by
+  simp only [hashMutableG, numKey, Deriv.cur, if_true, numText, fracText_nat] at h
+  have h2 : strKey (Nat.repr a) = strKey (Nat.repr b) := by
+    injection h with h; injection h with _ h; injection h
+  exact Nat.repr_inj.mp (strKey_inj h2)
 
 /-! ### non-vacuity -/
 
